@@ -356,7 +356,9 @@ fn eval_along(t: &mut Toks) -> R<String> {
     Ok(with_ms!(ms, m, {
         let dab = m.distance(a, b);
         if !(dab / max < 5000.0) {
-            return Err("too many steps".into());
+            // not run (the result list would be huge, or the distance is not a number): the driver
+            // decides whether that is a SKIP or a failure of the distance
+            return Ok(format!("notrun {}", proto::num(dab)));
         }
         let pts: Vec<Point<f64>> = m.points_along_line(a, b, max, incl).collect();
         let cs: Vec<Coord<f64>> = pts.iter().map(|p| p.0).collect();
